@@ -129,8 +129,14 @@ def run(res, proof):
             if ne:
                 # non-empty strands: exact split, and the inverse restores the list
                 tab = cux.make_strand_table(list(names), strand_break=b)
+                tab0 = [list(x) for x in tab]
                 back = cux.strand_table_to_sequence(tab, strand_break=b)
+                back = list(back)
+                again = cux.strand_table_to_sequence(tab, strand_break=b)
                 res.count('list_roundtrip')
+                if tab != tab0 or list(again) != back:
+                    res.violation('strand_table_to_sequence:modifies-input', {'op': list(op)}, 'table after the call: %r' % (tab,),
+                                  'the table is unchanged and a second conversion gives the same sequence')
                 if back != names:
                     res.violation('strand_table:list-roundtrip:' + seq[:20], {'op': list(op)}, repr(back), repr(names))
                 o2 = ('stseq', '|'.join(' '.join(x) for x in tab), b)
